@@ -12,8 +12,9 @@ has to be proved):
                 TunnelCommunity.on_created     test of the relay branch (request matches)   -> createdMatches
                                                guard chain inside that branch               -> createdRefused
                                                remove_exit_socket(..., remove_now=<const>)  -> convertRemovesNow
-                TunnelCommunity.on_destroy     the three tests of the if/elif chain         -> destroyViaRelay / destroyExit /
-                                               (and which table lookups define next/prev)      destroyCircuit
+                TunnelCommunity.on_destroy     the three tests of the if/elif chain (or of  -> destroyViaRelay / destroyExit /
+                                               the same chain as `if ..: ..; return` blocks;   destroyCircuit
+                                               which table lookups define next/prev)
                 TunnelCommunity.on_data        test of the "our circuit" branch             -> dataOurs
                 TunnelCommunity.exit_data      unknown-id guard + enable-or-drop            -> exitDataRefuses
   crypto.py     PythonCryptoEndpoint.process_cell   guard chain between incoming_crypto and the dispatch -> cellRefused
@@ -444,16 +445,33 @@ def translate() -> tuple[str, dict]:
     # -- on_destroy ------------------------------------------------------------------------------------------------------
     od = _body(_fn(tc, "on_destroy").body)
     env = {}
-    chain = None
-    for st in od:
-        if isinstance(st, ast.Assign) and len(st.targets) == 1 and isinstance(st.targets[0], ast.Name):
+    tests = []                     # (test, source of the branch body), in the order the code tries them
+    k = 0
+    while k < len(od):
+        st = od[k]
+        if isinstance(st, ast.Assign) and len(st.targets) == 1 and isinstance(st.targets[0], ast.Name) and not tests:
             env[st.targets[0].id] = Subst(env).visit(st.value)
-        elif isinstance(st, ast.If):
-            chain = st
+        elif isinstance(st, ast.If) and not tests and st.orelse:
+            # if / elif / elif [/ else: logging]: each test is tried only when the earlier ones failed
+            while True:
+                tests.append((st.test, ast.unparse(ast.Module(body=st.body, type_ignores=[]))))
+                if len(st.orelse) == 1 and isinstance(st.orelse[0], ast.If):
+                    st = st.orelse[0]
+                else:
+                    if not all(_is_log(x) for x in st.orelse):
+                        raise TranslatorError("on_destroy: the final else does more than logging")
+                    break
+            if not all(_is_log(x) for x in od[k + 1:]):
+                raise TranslatorError("on_destroy: statements after the if/elif chain")
             break
+        elif isinstance(st, ast.If) and not st.orelse and isinstance(st.body[-1], ast.Return) and st.body[-1].value is None \
+                and not any(isinstance(n, ast.Return) for x in st.body[:-1] for n in ast.walk(x)):
+            # the same chain written as guard blocks: `if <test>: ...; return`, tried in order, nothing in between
+            tests.append((st.test, ast.unparse(ast.Module(body=st.body[:-1], type_ignores=[]))))
         elif not _is_log(st):
             raise TranslatorError(f"on_destroy: unexpected statement `{ast.unparse(st)[:80]}`")
-    if chain is None:
+        k += 1
+    if not tests:
         raise TranslatorError("on_destroy: if/elif chain not found")
     NXT = "self.relay_from_to.get(payload.circuit_id)"
     PRV = f"self.relay_from_to.get({NXT}.circuit_id) if {NXT} else None"
@@ -463,14 +481,6 @@ def translate() -> tuple[str, dict]:
           "peer == self.exit_sockets[payload.circuit_id].hop.peer": "signerIsExitHop",
           "payload.circuit_id in self.circuits": "inCircuits",
           "peer == self.circuits[payload.circuit_id].hop.peer": "signerIsFirstHop"}
-    tests = []
-    st = chain
-    while True:
-        tests.append((st.test, ast.unparse(ast.Module(body=st.body, type_ignores=[]))))
-        if len(st.orelse) == 1 and isinstance(st.orelse[0], ast.If):
-            st = st.orelse[0]
-        else:
-            break
     if len(tests) != 3:
         raise TranslatorError(f"on_destroy: {len(tests)} branches where relay / exit socket / circuit were expected")
     for (test, body_src), (name, params, must) in zip(tests, [
